@@ -948,7 +948,10 @@ func lifeMain() int {
 		}
 		jobs = append(jobs, j)
 	}
-	lifeScratch, err = os.MkdirTemp("", "vrun-life-")
+	lifeScratch, err = os.MkdirTemp(".", "vrun-life-")
+	if err == nil {
+		lifeScratch, err = filepath.Abs(lifeScratch)
+	}
 	if err != nil {
 		return 64
 	}
